@@ -242,7 +242,8 @@ Fixpoint resolve_ref (fuel : nat) (vars : vtab) (seen : list str) (reference : s
                   | Some idx =>
                       (* repaired: the index applies to the value the chain ends in *)
                       match val with
-                      | RVal t => match index_tree t idx with Some t' => RVal t' | None => val end
+                      (* repaired (repo 805a1f6): an index that addresses no element makes the reference unresolvable *)
+                      | RVal t => match index_tree t idx with Some t' => RVal t' | None => RNone end
                       | _ => val
                       end
                   end
